@@ -214,13 +214,41 @@ def stored_values(P):
     return out
 
 
+def indep_compatible(ty, vty):
+    """type compatibility re-stated independently of unified_planning.model.types.is_compatible_type (the oracle must
+    not trust the function under test): equal types; user types: the value's type is the target or a descendant;
+    numbers: int->int, real->real, int->real only, and the two intervals overlap (a missing bound = unbounded)."""
+    from fractions import Fraction
+    if ty == vty:
+        return True
+    if ty.is_user_type() and vty.is_user_type():
+        t = vty
+        while t is not None:
+            if t == ty:
+                return True
+            t = t.father
+        return False
+    num = lambda t: t.is_int_type() or t.is_real_type()
+    if not (num(ty) and num(vty)):
+        return False
+    if ty.is_int_type() and not vty.is_int_type():
+        return False
+    lo = lambda t: None if t.lower_bound is None else Fraction(t.lower_bound)
+    hi = lambda t: None if t.upper_bound is None else Fraction(t.upper_bound)
+    if hi(vty) is not None and lo(ty) is not None and hi(vty) < lo(ty):
+        return False
+    if lo(vty) is not None and hi(ty) is not None and lo(vty) > hi(ty):
+        return False
+    return True
+
+
 def type_violation(P):
     """None if every stored value is type-compatible with its target (and every initial value constant),
     else a description of the first offender — the C23 invariant on a real problem"""
     for ty, v, must_const, where in stored_values(P):
         if must_const and not v.is_constant():
             return f"{where}: {v} is not a constant"
-        if not ty.is_compatible(v.type):
+        if not indep_compatible(ty, v.type):
             return f"{where}: {v} of type {v.type} is not compatible with {ty}"
     return None
 
